@@ -54,3 +54,27 @@ package interp
 //@ func Runner.readLine
 //@ props C28
 //@ loop 1 invariant [esc-means-nonempty] implies(esc, len(line) > 0)
+
+// ---- C33 call sites / C28: array element assignment. The Variable invariant (wfArr) is assumed for values that
+// come from the environment and must be re-established for what is stored back; the index passed to
+// SetIndexedElem/DeleteIndexedElem must be non-negative. ----
+
+//@ func Runner.lookupVar
+//@ props C28 C33
+//@ requires [non-empty-name] name != ""
+//@ ensures [variable-invariant] wfArr(result.List, result.Indexes) && result.Kind < expand.KeepValue
+
+//@ func Runner.setVarWithIndex
+//@ props C28 C33
+//@ requires [variable-invariant] wfArr(prev.List, prev.Indexes)
+
+//@ func Runner.unsetElem
+//@ props C28 C33
+//@ requires [non-empty-name] name != ""
+
+//@ func Runner.assignVal
+//@ props C28 C33
+//@ requires [variable-invariant] wfArr(prev.List, prev.Indexes)
+//@ requires [stored-kind] prev.Kind < expand.KeepValue
+//@ loop 2 invariant [array-wf] wfArr(list, indexes) && index >= 0
+//@ loop 3 invariant [array-wf] wfArr(list, indexes) && index >= 0
